@@ -42,7 +42,12 @@ func (o *goSliceObject) setLength(value Value) {
 		// No change needed.
 	case wantInt < o.value.Cap():
 		// Fits in current capacity.
+		have := o.value.Len()
 		o.value.SetLen(wantInt)
+		// elements removed by an earlier shrink must not come back
+		for i := have; i < wantInt; i++ {
+			o.value.Index(i).Set(reflect.Zero(o.value.Type().Elem()))
+		}
 	default:
 		// Needs expanding.
 		newSlice := reflect.MakeSlice(o.value.Type(), wantInt, wantInt)
